@@ -1,6 +1,8 @@
 package props
 
 import (
+	"context"
+	"time"
 	"encoding/json"
 	"fmt"
 	"strings"
@@ -48,13 +50,52 @@ func verifyRunner(r *eng.Runner) (error, int, int) {
 // use value-less calls as operands (then internal stack errors are its own).
 func verifyScript(script string, voidOK bool) (accepted bool, nontrivial bool, err error) {
 	for _, noOpt := range []bool{false, true} {
-		r, perr := prepared(script, nil, noOpt)
+		// soup scripts may loop for ever: the short deadline is their budget
+		// (a timeout is not one of the machine's internal errors)
+		r, perr := preparedShort(script, nil, noOpt)
 		if perr != nil {
 			return false, false, nil
 		}
 		verr, jumps, nf := verifyRunner(r)
 		if verr != nil {
 			return true, true, fmt.Errorf("noOptimize=%v: %v", noOpt, verr)
+		}
+		// "whenever Prepare accepts a script": also when the evaluator has
+		// prepared before - the same script again, or (its Script field is the
+		// host's to change) another script that was rejected or accepted
+		fresh := programDigest(r)
+		how := ""
+		switch evid.Digest("c18history"+script) % 4 {
+		case 0:
+			how = "prepared a second time"
+			if e2, pan := r.Prepare(noOpt); e2 != nil || pan != nil {
+				return true, true, fmt.Errorf("noOptimize=%v: the second Prepare of the same script failed: %v %v", noOpt, e2, pan)
+			}
+		case 1, 2:
+			how = "prepared after a script that the compiler rejected"
+			other := script + "\nzq = len(zq)(1);\nzr = 1; zr.(2 += 3);"
+			if evid.Digest("c18history"+script)%4 == 2 {
+				how = "prepared after another accepted script"
+				other = "zq = [1, 2.5, \"a\", \"zq\", 70000]; function zf(a) { return a + 1; } if ( zq ) { return zf(1); }\n" + script
+			}
+			r2 := eng.NewRunner(other)
+			ctx2, cancel2 := context.WithTimeout(context.Background(), 2*time.Second)
+			defer cancel2()
+			r2.E.SetContext(ctx2)
+			_, _ = r2.Prepare(noOpt)
+			r2.E.Script = script
+			if e2, pan := r2.Prepare(noOpt); e2 != nil || pan != nil {
+				return true, true, fmt.Errorf("noOptimize=%v: Prepare of the script on an evaluator that had %s failed: %v %v", noOpt, how, e2, pan)
+			}
+			r = r2
+		}
+		if how != "" {
+			if verr, _, _ := verifyRunner(r); verr != nil {
+				return true, true, fmt.Errorf("noOptimize=%v, evaluator %s: %v", noOpt, how, verr)
+			}
+			if again := programDigest(r); again != fresh {
+				return true, true, fmt.Errorf("noOptimize=%v: an evaluator %s holds another program than a fresh one: %s", noOpt, how, firstDiff(fresh, again))
+			}
 		}
 		if jumps >= 2 || nf >= 1 {
 			nontrivial = true
